@@ -1,7 +1,7 @@
 from engine.core import Job
 META = dict(
     level="other",
-    claim="The real initializer machinery (brace elision, nested and out-of-order designators, array index designators, unions, bit-fields, arrays of unknown bound) is run on fourteen concrete initializer shapes with symbolic leaf values, and BOTH back ends (static data image by write_gvar_data, automatic assignment chain by create_lvar_init after zero fill) are shown to produce exactly the C11 6.7.9 object image of the shape for all values; array designators are accepted only inside the array (any 64-bit value).",
+    claim="The real initializer machinery (brace elision, nested and out-of-order designators, array index designators, unions, bit-fields, arrays of unknown bound) is run on fifteen concrete initializer shapes with symbolic leaf values, and BOTH back ends (static data image by write_gvar_data, automatic assignment chain by create_lvar_init after zero fill) are shown to produce exactly the C11 6.7.9 object image of the shape for all values; array designators are accepted only inside the array (any 64-bit value).",
     note="Bounded: the shapes are a chosen list (per-shape proofs over all leaf values), so the quantifier over initializers is sampled, not closed. Stand-in stubs: assign (yields an integer constant node carrying the symbolic leaf value), const_expr (designator digits); equal/skip/consume are ghost token predicates. Not covered: string literals of every encoding, address constants/relocations, flexible struct members, struct-valued initializer expressions, emit_data (see C15).",
     functions=["parse.c:initializer", "parse.c:initializer2", "parse.c:designation", "parse.c:array_initializer1", "parse.c:array_initializer2", "parse.c:struct_initializer1", "parse.c:struct_initializer2", "parse.c:union_initializer",
                "parse.c:array_designator", "parse.c:struct_designator", "parse.c:count_array_init_elements", "parse.c:new_initializer", "parse.c:write_gvar_data", "parse.c:create_lvar_init", "parse.c:init_desg_expr", "parse.c:write_buf", "parse.c:read_buf"],
@@ -13,7 +13,7 @@ CUT = ["error", "error_tok", "error_at", "verror_at", "warn_tok"]
 SCEN = ["int a[4] = {v0, [2]=v1, v2}", "struct{int x;char y;int z[2];} = {.z={v0}, .x=v1}", "struct{int a[2];int b;} t[2] = {v0,v1,v2,v3}", "union{int i;short f;} = {.f=v0}",
         "struct{int a:3;int b:5;int c;int d:4;int e;} = {v0,v1,.e=v2}", "int a[] = {v0, [3]=v1}", "struct{int m[3];} w[2] = {[1].m[2]=v0}", "int a[2][2] = {{v0}, v1, v2}",
         "int a[2][4] = {[0][1 ... 2]=v0, v1}", "struct{int x;struct{int a,b,c;} in;int y;} = {.in.b=v0, v1, v2}", "struct{int p:3;int :5;int q:4;int r;} = {v0,v1,v2}",
-        "int a[6] = {[1 ... 2]=v0, v1}", "char a[8] = <6-byte string literal with arbitrary bytes>", "struct{unsigned long a:33;long b:20;} = {v0,v1}"]
+        "int a[6] = {[1 ... 2]=v0, v1}", "char a[8] = <6-byte string literal with arbitrary bytes>", "struct{unsigned long a:33;long b:20;} = {v0,v1}", "struct{_Bool x;char y;_Bool z;} = {v0,v1,v2}"]
 def jobs(tier):
     js = []
     for i, d in enumerate(SCEN):
